@@ -91,6 +91,7 @@ Record chem := mkchem {
 Record cfg := mkcfg {
   tb : table;                         (* CompiledChemicals._index *)
   comps : list (string * vec);        (* _group_mol_compositions *)
+  wcomps : list (string * vec);       (* _group_wt_compositions *)
   mws : vec;                          (* MW *)
   nchem : nat }.                      (* size *)
 
@@ -138,7 +139,7 @@ Definition base_table (cs : list chem) : table :=
             (enum_from 0 (map ccas cs) ++ enum_from 0 (map cid cs)) [].
 Definition compile (cs : list chem) : res cfg :=
   do t <- compile_aliases cs (base_table cs) cs;
-  Ok (mkcfg t [] (map cmw cs) (length cs)).
+  Ok (mkcfg t [] [] (map cmw cs) (length cs)).
 
 Definition is_str_key (k : key) : bool := match k with KStr _ => true | _ => false end.
 
@@ -174,9 +175,11 @@ Definition define_group (c : cfg) (name : string) (ids : list string) (comp : op
        | Err e => (c, Some e)
        | Ok ts =>
            let idx := poss ts in
-           let cm := if wt then map2 Qdiv comp0 (map (nthq (mws c)) idx) else comp0 in
-           let tot := qsum cm in
-           (mkcfg (tset (tb c) name (Grp idx)) ((name, vdivs cm tot) :: comps c) (mws c) (nchem c), None)
+           let mwi := map (nthq (mws c)) idx in
+           let cm := if wt then map2 Qdiv comp0 mwi else comp0 in
+           let cw := if wt then comp0 else vmul comp0 mwi in
+           (mkcfg (tset (tb c) name (Grp idx)) ((name, vdivs cm (qsum cm)) :: comps c)
+                  ((name, vdivs cw (qsum cw)) :: wcomps c) (mws c) (nchem c), None)
        end.
 
 Inductive cop :=
@@ -185,7 +188,7 @@ Inductive cop :=
 
 Definition cstep (c : cfg) (o : cop) : cfg * option err :=
   match o with
-  | CAlias id a => let (t, e) := set_alias (tb c) id a in (mkcfg t (comps c) (mws c) (nchem c), e)
+  | CAlias id a => let (t, e) := set_alias (tb c) id a in (mkcfg t (comps c) (wcomps c) (mws c) (nchem c), e)
   | CGroup n ids cp wt => define_group c n ids cp wt
   end.
 Fixpoint cbuild (c : cfg) (ops : list cop) : cfg * list (option err) :=
@@ -680,15 +683,41 @@ Inductive op :=
 | OSet (i : nat) (k : key) (d : data)
 | OOverlap (cas : list string)
 | OMix (i : nat) (cas : list string) (vals : vec)   (* ChemicalIndexer.mix_from([indexer of another package]) *)
-| OIndex (k : key).
+| OIndex (k : key)
+| OGetMass (i : nat) (k : key)                      (* indexer.by_mass()[key]: the memoised view over the same dicts *)
+| OSetMass (i : nat) (k : key) (d : data)           (* indexer.by_mass()[key] = data *)
+| OMixPhase (i : nat) (p : string) (vals : vec)     (* X.mix_from([X, <single-phase indexer of the same chemicals, phase p>]) *)
+| OCopyPhase (i : nat) (p : string) (vals : vec).   (* X.copy_like(<single-phase indexer of the same chemicals, phase p>) *)
 
 Inductive obs :=
 | BVal (v : val)
 | BErr (e : err)
 | BIdx (c : cindex)
-| BWr (e : option err) (rows : list vec).
+| BWr (e : option err) (rows : list vec)
+| BPh (phs : list string) (rows : list vec).
 
 Definition rows_of (x : ixr) : list vec := match x with IC d => [d] | IM _ rows => rows end.
+
+(* the mass view: MassFlowDict(dct, MW) wraps the SAME dict, so it always shows mol * MW and writes mol = kg / MW *)
+Definition to_mass (mw d : vec) : vec := vmul d mw.
+Definition of_mass (mw m : vec) : vec := map2 Qdiv m mw.
+
+(* MaterialIndexer._expand_phases: phases stay sorted, the new row is empty; afterwards _set_cache switches the
+   indexer to the class-level cache registered for the NEW phase set (every other cache is left alone) *)
+Fixpoint insert_phase (p : string) (phs : list string) (rows : list vec) (z : vec) : list string * list vec :=
+  match phs, rows with
+  | q :: phs', r :: rows' =>
+      if String.ltb p q then (p :: phs, z :: rows)
+      else let (a, b) := insert_phase p phs' rows' z in (q :: a, r :: b)
+  | _, _ => ([p], [z])
+  end.
+(* `if phase not in phase_indexer: _expand_phases(...)`, then the row of the phase *)
+Definition add_phase_row (n : nat) (phs : list string) (rows : list vec) (p : string) : list string * list vec * nat :=
+  match pcall phs p with
+  | Ok r => (phs, rows, r)
+  | Err _ => let (phs', rows') := insert_phase p phs rows (vzero n) in
+             (phs', rows', match pcall phs' p with Ok r => r | Err _ => O end)
+  end.
 
 Definition step (vr : variant) (c : cfg) (s : state) (o : op) : state * obs :=
   match o with
@@ -745,6 +774,56 @@ Definition step (vr : variant) (c : cfg) (s : state) (o : op) : state * obs :=
       | _ => (s, BErr EOther)
       end
   | OIndex k => (s, match get_index (tb c) k with Ok ci => BIdx ci | Err e => BErr e end)
+  | OGetMass i k =>
+      match nth_error (sixs s) i with
+      | Some (IC d) =>
+          let (cc', r) := chem_lookup (tb c) (scc s) k in
+          (mkst cc' (smc s) (sixs s),
+           match (do v <- r; let (ci, kd) := v : cval in get_sparse (to_mass (mws c) d) ci kd) with Ok v => BVal v | Err e => BErr e end)
+      | Some (IM phs rows) =>
+          let '(cc', mc', r) := mat_lookup vr (tb c) phs (scc s) (mc_get (smc s) phs) k in
+          (mkst cc' (mc_set (smc s) phs mc') (sixs s),
+           match (do v <- r; mat_get (nchem c) (map (to_mass (mws c)) rows) v) with Ok v => BVal v | Err e => BErr e end)
+      | None => (s, BErr EOther)
+      end
+  | OSetMass i k dt =>
+      match nth_error (sixs s) i with
+      | Some (IC d) =>
+          let (cc', r) := chem_lookup (tb c) (scc s) k in
+          match r with
+          | Ok (ci, kd) =>
+              let (m', e) := set_sparse (wcomps c) (to_mass (mws c) d) ci kd dt k in
+              let d' := of_mass (mws c) m' in
+              (mkst cc' (smc s) (upd (sixs s) i (IC d')), BWr e [d'])
+          | Err e => (mkst cc' (smc s) (sixs s), BWr (Some e) [d])
+          end
+      | Some (IM phs rows) =>
+          let '(cc', mc', r) := mat_lookup vr (tb c) phs (scc s) (mc_get (smc s) phs) k in
+          match r with
+          | Ok v =>
+              let (m', e) := mat_set (wcomps c) (map (to_mass (mws c)) rows) v dt k in
+              let rows' := map (of_mass (mws c)) m' in
+              (mkst cc' (mc_set (smc s) phs mc') (upd (sixs s) i (IM phs rows')), BWr e rows')
+          | Err e => (mkst cc' (mc_set (smc s) phs mc') (sixs s), BWr (Some e) rows)
+          end
+      | None => (s, BErr EOther)
+      end
+  | OMixPhase i p v =>
+      match nth_error (sixs s) i with
+      | Some (IM phs rows) =>
+          let '(phs', rows', r) := add_phase_row (nchem c) phs rows p in
+          let rows'' := upd rows' r (vadd (nth r rows' []) v) in
+          (mkst (scc s) (smc s) (upd (sixs s) i (IM phs' rows'')), BPh phs' rows'')
+      | _ => (s, BErr EOther)
+      end
+  | OCopyPhase i p v =>
+      match nth_error (sixs s) i with
+      | Some (IM phs rows) =>
+          let '(phs', rows', r) := add_phase_row (nchem c) phs (map (fun x => vzero (length x)) rows) p in
+          let rows'' := upd rows' r v in
+          (mkst (scc s) (smc s) (upd (sixs s) i (IM phs' rows'')), BPh phs' rows'')
+      | _ => (s, BErr EOther)
+      end
   end.
 
 Fixpoint run (vr : variant) (c : cfg) (s : state) (ops : list op) : state * list obs :=
@@ -786,6 +865,7 @@ Definition obs_eqb (a b : obs) : bool :=
   | BErr e, BErr f => err_eqb e f
   | BIdx x, BIdx y => cindex_eqb x y
   | BWr e x, BWr f y => opt_eqb err_eqb e f && list_eqb vapproxb x y
+  | BPh p x, BPh q y => phs_eqb p q && list_eqb vapproxb x y
   | _, _ => false
   end.
 Definition entry_eqb {A} (eqb : A -> A -> bool) (a b : key * A) : bool :=
@@ -803,7 +883,7 @@ Definition comps_agree (cs : list (string * vec)) (expect : list (string * vec))
 (* the whole case: build the package, run the history, compare everything observed *)
 Definition case_eqb (vr : variant) (chems : list chem) (cops : list cop)
            (compile_err : option err) (cop_errs : list (option err))
-           (exp_table : list (string * target)) (absent : list string) (exp_comps : list (string * vec))
+           (exp_table : list (string * target)) (absent : list string) (exp_comps exp_wcomps : list (string * vec))
            (ixs : list ixr) (ops : list op) (exp_obs : list obs)
            (exp_cc : ccache) (exp_mc : list (list string * mcache)) : bool :=
   match compile chems with
@@ -815,7 +895,7 @@ Definition case_eqb (vr : variant) (chems : list chem) (cops : list cop)
           let (c, es) := cbuild c0 cops in
           let (s, bs) := run vr c (mkst [] [] ixs) ops in
           list_eqb (opt_eqb err_eqb) es cop_errs
-          && table_agrees (tb c) exp_table absent && comps_agree (comps c) exp_comps
+          && table_agrees (tb c) exp_table absent && comps_agree (comps c) exp_comps && comps_agree (wcomps c) exp_wcomps
           && list_eqb obs_eqb bs exp_obs
           && ccache_eqb (scc s) exp_cc
           && forallb (fun pc => mcache_eqb (mc_get (smc s) (fst pc)) (snd pc)) exp_mc
